@@ -71,6 +71,8 @@ type Exec struct {
 	useContracts  bool
 	specAxioms    []*Term
 	globalRefs    map[string]*Term
+	argNames      map[string]bool
+	argCells      map[string]*Cell
 	mkstrSeen     map[string]bool
 	zarrSeen      map[string]bool
 	heapReads     []heapRead
@@ -615,6 +617,11 @@ func (x *Exec) execFunction(fn *ssa.Function, st *State, args, bind []*Value, co
 				c := &Cell{Name: "called$" + n, T: tBool, ID: x.cellID}
 				x.calledCells[n] = c
 				st.cells[c] = scalar(tBool, False)
+			}
+			x.argNames = map[string]bool{}
+			x.argCells = map[string]*Cell{}
+			for _, n := range calledNames(contract, "arg") {
+				x.argNames[n] = true
 			}
 			x.retCells = map[string]*Cell{}
 			for _, n := range calledNames(contract, "ret") {
